@@ -284,6 +284,7 @@ def run(rep, for_c07=False):
         from . import validate
         validate.stage(rep)              # what `valid` means: spec/Validate.tla against the real validators
         watchdog_pacing(rep)
+        dpr_with_followers(rep)
     else:
         two_node_objects(rep)
         back_to_back(rep)
@@ -328,6 +329,11 @@ def run(rep, for_c07=False):
 def replay(rep, path):
     r = json.load(open(path))["replay"]
     nodemod.ensure_installed(0)
+    if r.get("kind") == "dpr-with-followers":
+        dpr_with_followers(rep)
+        rep.states, rep.transitions = 1, 1
+        rep.sample(r)
+        return rep.finish()
     if r.get("kind") == "back-to-back":
         back_to_back(rep)
         rep.states, rep.transitions = 1, 1
@@ -587,6 +593,53 @@ def answer_behind_submissions(rep):
     finally:
         bs.SEND_BUFFER_MAXIMUM_SIZE = saved
     rep.notes["answer_behind_submissions_executions"] = n_exec
+
+
+def dpr_with_followers(rep):
+    """A DPR that arrives together with later messages (one segment): the DPR is answered and closes the connection; what stands
+    behind it in the receive queue is neither delivered to the application nor answered, and the node reaches Closed with its
+    transport released (the quick tier's graphs have a receive queue of one: this is the two-deep case of the thorough tier)."""
+    for role in ("client", "server"):
+        for followers in (("REQ",), ("DWR",), ("REQ", "DWR")):
+            ad = PsmAdapter(role, watchdog=50)
+            h = ad.fresh()
+            n = h.node
+            problems = []
+            try:
+                ad.apply(h, "Start", [False], None)
+                if role == "client":
+                    ad.apply(h, "Tick", [], None)
+                    ad.apply(h, "Tick", [], None)
+                    ad.apply(h, "Inject", [{"k": "CEA", "valid": True, "id": 1}], None)
+                else:
+                    ad.apply(h, "Inject", [{"k": "CER", "valid": True, "id": 1}], None)
+                ad.apply(h, "Tick", [], None)
+                n.take_sent()
+                if n.state() != "Open":
+                    raise tlc.TlcError(f"dpr-with-followers: the {role} node did not open")
+                n.inject(n.make("DPR", True, 2))
+                for j, k in enumerate(followers):
+                    n.inject(n.make(k, True, 3 + j))
+                for _ in range(4):
+                    n.tick()
+                sent = [(n.classify(m), n.id_of(m)) for m in n.take_sent()]
+                delivered = [n.classify(m) for m in n.take_delivered()]
+                if sent != [("DPA", 2)]:
+                    problems.append(f"emitted {sent}, expected exactly the DPA of the DPR")
+                if delivered:
+                    problems.append(f"{delivered} handed to the application after the DPR")
+                if n.state() != "Closed":
+                    problems.append(f"state {n.state()}, expected Closed")
+                elif not n.sock.closed:
+                    problems.append("Closed but the socket is still open")
+            except (vsched.Deadlock, vsched.StepLimit, vsched.StepHang) as e:
+                problems.append(f"{type(e).__name__}: {str(e)[:200]}")
+            finally:
+                ad.dispose(h)
+            rep.case(("dpr-with-followers", role, followers))
+            if problems:
+                rep.violation(f"{role}: a DPR arriving together with {list(followers)} behind it: " + "; ".join(problems[:3]), {"kind": "dpr-with-followers", "role": role})
+                return
 
 
 def watchdog_pacing(rep):
